@@ -53,7 +53,9 @@ def cases(draw, max_leaves):
     return {"spec": spec, "lenpat": sl["lenpat"], "kclass": draw(st.sampled_from(["one", "two", "allbut1", "all", "clade",
                                                                                    "coclade", "random", "random"])),
             "ksel": draw(st.integers(0, 2 ** 30)), "variant": draw(st.sampled_from(VARIANTS)),
-            "su": draw(st.booleans()), "ub": draw(st.booleans()), "rooted": draw(st.sampled_from([True, False, None]))}
+            "su": draw(st.booleans()), "ub": draw(st.booleans()), "rooted": draw(st.sampled_from([True, False, None])),
+            # filter_leaf_nodes only: recursive=False (one pass over the current leaves)
+            "single_pass": draw(st.booleans())}
 
 
 @st.composite
@@ -217,6 +219,7 @@ def run_variant(ctx, tree, ns, bits, case, spec, step=None, taxa=None, labels=No
     tag = "%s su=%r ub=%r rooted=%r K=%s" % (variant, su, ub, rooted_flag, sorted(K))
     pre_cl = pre.clusters()
     removed_reported = None
+    single_pass = False
     result_tree = tree
 
     if variant == "prune_subtree":
@@ -237,9 +240,16 @@ def run_variant(ctx, tree, ns, bits, case, spec, step=None, taxa=None, labels=No
         ctx.call(key, tree.retain_taxa_with_labels, real(K), update_bipartitions=ub, suppress_unifurcations=su)
     elif variant == "filter_leaf_nodes":
         Kset = set(K)
-        removed_reported = ctx.call(key, tree.filter_leaf_nodes,
-                                    lambda nd: nd.taxon is not None and tkey(nd.taxon) in Kset,
-                                    update_bipartitions=ub, suppress_unifurcations=su)
+        single_pass = bool(case.get("single_pass"))
+        if single_pass:
+            ctx.cls("filter_leaf_nodes:recursive=False")
+            removed_reported = ctx.call(key, tree.filter_leaf_nodes,
+                                        lambda nd: nd.taxon is not None and tkey(nd.taxon) in Kset, recursive=False,
+                                        update_bipartitions=ub, suppress_unifurcations=su)
+        else:
+            removed_reported = ctx.call(key, tree.filter_leaf_nodes,
+                                        lambda nd: nd.taxon is not None and tkey(nd.taxon) in Kset,
+                                        update_bipartitions=ub, suppress_unifurcations=su)
     elif variant == "prune_leaves_without_taxa":
         for i in pre.leaves():
             if pre.taxon[i] in comp:
@@ -263,6 +273,20 @@ def run_variant(ctx, tree, ns, bits, case, spec, step=None, taxa=None, labels=No
 
     got = treechecks.wellformed(ctx, result_tree, "result_well_formed", "C08.wellformed:" + variant, tag, taxon_key=tkey)
     inplace = variant in INPLACE
+    if single_pass:
+        # one pass over the leaves present at the call: exactly the rejected leaves go and are reported, nothing else
+        want_removed = set(id(pre.obj[i]) for i in pre.leaves() if pre.taxon[i] not in K)
+        got_removed = [id(x) for x in removed_reported]
+        ctx.check(len(got_removed) == len(set(got_removed)) and set(got_removed) == want_removed, "reported_removed_nodes_single_pass",
+                  "C08.removed_single_pass:" + variant, lambda: "%s reported %d nodes, expected the %d rejected leaves" % (tag, len(got_removed), len(want_removed)))
+        ctx.check(frozenset(got.taxon[i] for i in got.leaves() if got.taxon[i] is not None) == K, "surviving_leaf_taxa_single_pass",
+                  "C08.leafset_single_pass:" + variant, lambda: "%s leaves now %s" % (tag, got.canon()))
+        if any(pre.children[i] and not (pre_cl[i] & K) for i in pre.nodes()):
+            # an internal node lost all its leaves and is a (taxon-less) leaf now, as documented: the induced-subtree
+            # clauses speak about the recursive form
+            ctx.cls("filter_leaf_nodes:recursive=False:emptied_internal_node_left")
+            return tree
+        removed_reported = None
     want_s = src.restrict(K, suppress=True)
     want_u = src.restrict(K, suppress=False)
     d = lambda: "%s source=%s got=%s want=%s" % (tag, src.canon(lengths=True, labels=True), got.canon(lengths=True, labels=True),
